@@ -442,7 +442,7 @@ impl Ctl {
         // small channels: a read may have to refill from the history, i.e. needs the buffer lock (try_lock, asked again
         // until it answers): while the producer is parked inside its emit the read could not complete, so the producer
         // leaves its critical section first
-        let choice = if self.refill_reads && choice != 0 && self.guard && en.iter().any(|(a, p)| *a == choice && *p == "c06.read") && en.iter().any(|(a, _)| *a == 0) {
+        let choice = if self.refill_reads && !self.probe_buffer && choice != 0 && self.guard && en.iter().any(|(a, p)| *a == choice && *p == "c06.read") && en.iter().any(|(a, _)| *a == 0) {
             if self.pos > 0 && self.pos <= self.prefix.len() && self.prefix[self.pos - 1] == choice {
                 self.pos -= 1; // the read stays next in line
             }
@@ -1070,7 +1070,8 @@ fn oracle(c: &Case, o: &Outcome, cap: usize) -> Option<(String, String)> {
         let pre = o.truth.len().saturating_sub(total_pubs);
         let mut pubs = 0usize;
         let mut nth: BTreeMap<usize, usize> = BTreeMap::new();
-        if o.in_flight == 0 && !o.deadlock {
+        // (a probing small-channel case reads while the producer may be inside its emit: such a read cannot refill yet)
+        if o.in_flight == 0 && !o.deadlock && !(c.probe && c.cap > 0) {
             for e in &o.events {
                 match e {
                     Ev::Pub => pubs += 1,
@@ -1423,7 +1424,10 @@ fn main() {
                             s.insert(at, OTHER);
                         }
                     }
-                    cases.push(Case { kind: *kind, load: load.clone(), subs: 1, sched: s, others, reads, loss: 0, probe: false, cap: *cap });
+                    // every other reading case: the reads are granted even while the producer is inside its emit (holding the
+                    // buffer lock): the refill cannot get the history at that moment and must come back for it
+                    let probe = reads > 0 && *kind != Kind::Thread && (ia / 2 + ic) % 2 == 0;
+                    cases.push(Case { kind: *kind, load: load.clone(), subs: 1, sched: s, others, reads, loss: 0, probe, cap: *cap });
                     n_small += 1;
                 }
                 // several subscribers, random interleavings, random reads
